@@ -77,6 +77,8 @@ def shard_main(ctx):
                        lambda ch, evs: check_case(ctx, ch, evs), p["examples"] // 2, case_repr, name="plain")
     ctx.run_hypothesis([gen.charts(gen.history_profile(), 'null'), gen.event_histories(12, ['a', 'b'])],
                        lambda ch, evs: check_case(ctx, ch, evs, dm='null'), p["examples"], case_repr, name="history")
+    ctx.run_hypothesis([gen.parallel_final_charts('lua'), gen.event_histories(8, ['a', 'b', 'c', 'a', 'b', 'c', 'leave', 'back'])],
+                       lambda ch, evs: check_case(ctx, ch, evs), p["examples"] // 2, case_repr, name="pardone")
     ctx.run_hypothesis([gen.charts(gen.completion_profile(), 'lua'), gen.event_histories(5, ['a', 'b'])],
                        lambda ch, evs: check_case(ctx, ch, evs), p["examples"], case_repr, name="completion")
     o2 = gen.GenOpts(faults=True)
